@@ -18,6 +18,9 @@ use emmylua_code_analysis::{
     read_file_with_encoding, uri_to_file_path,
 };
 use lsp_types::Uri;
+#[cfg(feature = "verif")]
+use crate::verif_locks::{Mutex as AsyncMutex, RwLock};
+#[cfg(not(feature = "verif"))]
 use tokio::sync::{Mutex as AsyncMutex, RwLock};
 use tokio_util::sync::CancellationToken;
 
